@@ -1185,6 +1185,79 @@ Section WithNorm.
         cbn [fst snd] in *. split; [congruence|exact IHm].
       + cbn [fst snd]. split; [reflexivity|exact Hm].
   Qed.
+
+  (* ---------------------------------------------------------------- *)
+  (* restart of a replica with an on disk state machine                 *)
+  (* The membership and the verdicts of a replica are those of [run] on the
+     config change entries of its log, whatever the index its on disk state
+     machine reported on Open (and whether it is an on disk one at all).     *)
+
+  Lemma sm_run_is_run ordered on_disk odi es : forall r,
+    r_members (fst (sm_run norm ordered on_disk odi r es)) =
+      fst (run norm ordered (r_members r) (cc_reqs es)) /\
+    snd (sm_run norm ordered on_disk odi r es) =
+      snd (run norm ordered (r_members r) (cc_reqs es)).
+  Proof.
+    induction es as [|[e i] rest IH]; intros r; [cbn; auto|].
+    destruct e as [c|].
+    - cbn [sm_run sm_handle_entry cc_reqs run fst snd].
+      destruct (step norm ordered (r_members r) (c, i)) as [m1 v] eqn:Hs.
+      destruct v.
+      + specialize (IH (mkR m1 i (r_updates r))). cbn [r_members] in IH.
+        destruct (sm_run norm ordered on_disk odi (mkR m1 i (r_updates r)) rest) as [r2 vs].
+        destruct (run norm ordered m1 (cc_reqs rest)) as [m2 ws]. cbn [fst snd] in *.
+        destruct IH as [-> ->]. auto.
+      + specialize (IH (mkR m1 i (r_updates r))). cbn [r_members] in IH.
+        destruct (sm_run norm ordered on_disk odi (mkR m1 i (r_updates r)) rest) as [r2 vs].
+        destruct (run norm ordered m1 (cc_reqs rest)) as [m2 ws]. cbn [fst snd] in *.
+        destruct IH as [-> ->]. auto.
+      + cbn. auto.
+    - cbn [sm_run sm_handle_entry cc_reqs fst snd].
+      destruct (entry_in_init_disk_sm on_disk odi i);
+        match goal with |- context [sm_run _ _ _ _ ?r' rest] => apply (IH r') end.
+  Qed.
+
+  Lemma cc_reqs_app l1 l2 : cc_reqs (l1 ++ l2) = cc_reqs l1 ++ cc_reqs l2.
+  Proof.
+    induction l1 as [|[e i] rest IH]; [reflexivity|].
+    destruct e; cbn; rewrite IH; reflexivity.
+  Qed.
+
+  Lemma on_disk_index_irrelevant_proved ordered od1 k1 od2 k2 r1 r2 es :
+    r_members r1 = r_members r2 ->
+    r_members (fst (sm_run norm ordered od1 k1 r1 es)) =
+      r_members (fst (sm_run norm ordered od2 k2 r2 es)) /\
+    snd (sm_run norm ordered od1 k1 r1 es) = snd (sm_run norm ordered od2 k2 r2 es).
+  Proof.
+    intros H.
+    destruct (sm_run_is_run ordered od1 k1 es r1) as [-> ->].
+    destruct (sm_run_is_run ordered od2 k2 es r2) as [-> ->].
+    rewrite H. auto.
+  Qed.
+
+  (* replica A applies l1 ++ l2 without restarting. Replica B took a snapshot
+     record after l1, restarted (its on disk state machine reports any index
+     [k2] on Open), recovered membership and applied index from the record and
+     replayed l2. Same membership, and B's verdicts on l2 are A's. *)
+  Lemma restart_replay_same_membership_proved ordered od1 k1 od2 k2 r l1 l2 ss_index :
+    let a := sm_run norm ordered od1 k1 r (l1 ++ l2) in
+    let s := sm_run norm ordered od1 k1 r l1 in
+    let b := sm_run norm ordered od2 k2 (sm_recover (m_get (r_members (fst s))) ss_index) l2 in
+    has_panic (snd s) = false ->
+    r_members (fst b) = r_members (fst a) /\ snd a = snd s ++ snd b.
+  Proof.
+    intros a s b Hp. subst a s b.
+    destruct (sm_run_is_run ordered od1 k1 (l1 ++ l2) r) as [-> ->].
+    destruct (sm_run_is_run ordered od1 k1 l1 r) as [E1 E2]. rewrite E1, E2 in *. clear E1 E2.
+    destruct (sm_run_is_run ordered od2 k2 l2
+                (sm_recover (m_get (fst (run norm ordered (r_members r) (cc_reqs l1)))) ss_index))
+      as [-> ->].
+    rewrite cc_reqs_app, run_app.
+    unfold sm_recover. cbn [r_members].
+    destruct (run norm ordered (r_members r) (cc_reqs l1)) as [m1 v1]. cbn [fst snd] in *.
+    rewrite Hp.
+    destruct (run norm ordered (m_set (m_get m1)) (cc_reqs l2)) as [m2 v2]. cbn. auto.
+  Qed.
 End WithNorm.
 
 (* ------------------------------------------------------------------ *)
